@@ -13,6 +13,7 @@ R12.5  scatter/gather order: entry k is taken from guest address ptr + 8k, ascen
        the array and the same count
 R12.6  error discipline: a failed native call never yields SUCCESS; success paths store the result first
 """
+import re
 from .. import astdb, pe, wasi as W, wasi_oracle as O, runtime, ctyperules as ct
 from ..astdb import kids, walk, AnalysisBroken
 from ..pe import Sym, Ptr, unk, is_sym
@@ -129,11 +130,31 @@ def check_rw(chk, tu):
                     # iovec array filled in order from the loaded (buf, len) pairs
                     stores = [(a[0], a[1]) for n, a, l in p.events if n == 'store-sym']
                     vals = [v for t, v in stores]
+                    # native entry k, field iov_base / iov_len, identified by the store target (the order of the two field stores is free)
+                    entries = {}
                     seq_ok = len(vals) == 2 * count
+                    for t, v in stores:
+                        rt = repr(t)
+                        m_ = re.search(r'\[(\d+)\]\.(iov_base|iov_len)$', rt) or re.search(r'\+ (\d+)\)?\)?->(iov_base|iov_len)$', rt)
+                        if m_ is None:
+                            m2 = re.search(r'(iov_base|iov_len)$', rt)
+                            if m2 is None:
+                                seq_ok = False
+                                continue
+                            # target spelled through a pointer to the entry: recover the entry index from the pointer arithmetic
+                            idx = re.findall(r'(?:\[|\+ )(\d+)(?:\]|\))', rt)
+                            k_ = int(idx[-1]) if idx else 0
+                            entries.setdefault(k_, {})[m2.group(1)] = v
+                        else:
+                            entries.setdefault(int(m_.group(1)), {})[m_.group(2)] = v
+                    seq_ok = seq_ok and sorted(entries) == list(range(count))
                     for k in range(count):
                         if not seq_ok:
                             break
-                        b, ln = vals[2 * k], vals[2 * k + 1]
+                        b, ln = entries[k].get('iov_base'), entries[k].get('iov_len')
+                        if b is None or ln is None:
+                            seq_ok = False
+                            break
                         bl = [s for s in pe.sym_walk(b) if s.op == 'gload']
                         ll = [s for s in pe.sym_walk(ln) if s.op == 'gload']
                         seq_ok = len(bl) == 1 and len(ll) == 1 and offset_from(bl[0].args[1], iovs) == 8 * k and \
